@@ -20,7 +20,7 @@
    Periodic nodes exist only under the advance_to driver (start() never returns while a
    periodic action is alive).  A periodic node's action gets no scheduler; per tick it may
    cancel a node, then returns state+1 or raises.                                          *)
-EXTENDS Naturals, Sequences, FiniteSets, TLC, Json
+EXTENDS Integers, Sequences, FiniteSets, TLC, Json
 
 CONSTANTS Profiles    \* names of the bound profiles this run enumerates (one TLC run covers them all)
 
@@ -35,12 +35,15 @@ Prof(nm, nd, rt, bd, ra, ca, rl, ab, pe, hz, dr) ==
     [name |-> nm, nodes |-> nd, roots |-> rt, body |-> bd, raises |-> ra, cancels |-> ca, rel |-> rl, abs |-> ab,
      per |-> pe, horizon |-> hz, drivers |-> dr]
 Both == {"start", "adv"}
+Neg1 == 0 - 1     \* a negative relative due time: due before the current clock, runs at the current clock, sorts first
 AllProfiles == {
     \* quick: one-shot trees to depth 2 under both drivers; periodic roots with cancels; periodic children
     Prof("q_trees",    3, 1, 2, 2, 0, {1}, {2}, {}, 4, Both),
     Prof("q_periodic", 2, 2, 1, 2, 1, {1}, {2}, {2}, 4, {"adv"}),
     Prof("q_mixed",    3, 1, 1, 2, 1, {1}, {}, {2}, 4, {"adv"}),
     \* cancels under start(): the only place where discarding a cancelled entry shows in the clock (two allowed outcomes)
+    \* relative due times of exactly 0 and below 0 (with raises and both verdicts, siblings at one instant)
+    Prof("q_zero",     3, 1, 2, 2, 0, {0, Neg1}, {}, {}, 4, {"adv"}),
     Prof("q_cancel",   3, 2, 1, 0, 1, {1}, {2}, {}, 4, {"start"}),
     \* thorough
     Prof("t_trees",    4, 1, 2, 2, 0, {1}, {2}, {}, 4, Both),
@@ -48,7 +51,7 @@ AllProfiles == {
     Prof("t_periodic", 3, 2, 1, 2, 1, {1}, {2}, {2}, 4, {"adv"}),
     Prof("t_mixed",    3, 2, 2, 2, 1, {1}, {}, {2}, 5, {"adv"}),
     \* simulation only
-    Prof("sim",        6, 2, 3, 3, 2, {0, 1, 3}, {0, 2, 5}, {1, 2, 3}, 6, Both) }
+    Prof("sim",        6, 2, 3, 3, 2, {Neg1, 0, 1, 3}, {0, 2, 5}, {1, 2, 3}, 6, Both) }
 
 Exc == {1, 2}
 Max(a, b) == IF a >= b THEN a ELSE b
@@ -224,8 +227,9 @@ TypeOK == /\ clock \in Nat /\ cur.id \in 0..prof.nodes /\ exc \in {0} \cup Exc /
 
 Escapes == {drives[i].esc : i \in 1..Len(drives)} \ {0}
 
-\* every raise - at any depth of the tree, one-shot or periodic - reaches the handler, in order, with
-\* the exception that was raised (while an unwinding is in flight the last raise is still on its way)
+\* every raise - at any depth of the tree, one-shot or periodic - reaches the handler EXACTLY ONCE, in
+\* order, with the exception that was raised (while an unwinding is in flight the last raise is still on
+\* its way): one catch layer per scheduled action, however it was scheduled
 EveryRaiseSeenByHandler ==
     handler = IF exc # 0 THEN SubSeq(raises, 1, Len(raises) - 1) ELSE raises
 \* verdict TRUE: the driver call does not end with that exception
